@@ -67,7 +67,8 @@ def run(tier, seed):
                     s = rnd.choice({'forms': [':indeterminate', ':default', 'input:indeterminate, :default',
                                               ':is(:default, :indeterminate)', ':not(:indeterminate)'],
                                     'radios': [':indeterminate', 'input:indeterminate', ':not(:indeterminate)', ':is(:indeterminate, p)'],
-                                    'langdir': [':lang("")', ':lang(en)', ':not(:lang(de))', ':lang("*")', ':lang("*")', 'p:lang("*")', ':lang(fr), :lang(es)',
+                                    'langdir': [':dir(ltr)', ':dir(rtl)', ':not(:dir(ltr))', 'span:dir(rtl), b:dir(ltr)', ':dir(rtl) > :dir(ltr)', ':has(> :dir(rtl))',
+                                                ':lang("")', ':lang(en)', ':not(:lang(de))', ':lang("*")', ':lang("*")', 'p:lang("*")', ':lang(fr), :lang(es)',
                                                 ':lang(fr)', ':lang("en-*")']}.get(profile, [':lang("")', ':default', ':indeterminate']))
                 if it % 4 == 1 and profile == 'ns':
                     from props.C11 import HTML_ONLY
